@@ -28,9 +28,10 @@ def make_new_world(rng, w, unseen_prob):
         rows = [r for r in range(n2) if rng.random() < 0.4] or [rng.randrange(n2)]
         if v == "k":
             s = new["k"].copy()
+            newk = rng.choice([777, 0])   # 0: an unseen level that is false in Python
             for r in rows:
-                s.iloc[r] = 777
-                cols["k"]["v"][r] = 777
+                s.iloc[r] = newk
+                cols["k"]["v"][r] = newk
                 cols["C(k)"]["v"][r] = UNSEEN_CODE
                 cols["k#grp"]["v"][r] = UNSEEN_CODE
                 cols["C(k, levels=KL)"]["v"][r] = UNSEEN_CODE
@@ -48,8 +49,9 @@ def make_new_world(rng, w, unseen_prob):
             touched.add("o")
         else:
             s = new[v].astype(object)
+            blank = rng.random() < 0.3   # the empty string as the (only) unseen level of this variable
             for r in rows:
-                s.iloc[r] = "NEW_" + v + str(rng.randint(1, 2))
+                s.iloc[r] = "" if blank else "NEW_" + v + str(rng.randint(1, 2))
                 cols[v]["v"][r] = UNSEEN_CODE
                 if v == "h":
                     cols["I(h)"]["v"][r] = UNSEEN_CODE
